@@ -312,9 +312,15 @@ def _sequences(threads, maxlen):
             yield [list(x) for x in seq]
 
 
+def _available(threads):
+    """numba refuses thread counts above NUMBA_NUM_THREADS (the core count by default)."""
+    import numba
+    return [t for t in threads if t <= numba.config.NUMBA_NUM_THREADS]
+
+
 def generate(tier, rng):
     thorough = tier == "thorough"
-    threads = [1, 2, 4, 8] if thorough else [1, 4]
+    threads = _available([1, 2, 4, 8] if thorough else [1, 4])
     prefetch([(s, 1) for s in _SOLVES] + [(s, t) for s in ALPHABET for t in threads if t != 1])
     for s in _SOLVES:
         for t in threads:
@@ -325,13 +331,13 @@ def generate(tier, rng):
                 yield "fresh-threads", dict(solve=s, threads=t)
     if thorough:
         seen = set()
-        for seq in itertools.chain(_sequences([1, 4], 3), _sequences([1, 2, 4, 8], 2)):
+        for seq in itertools.chain(_sequences(_available([1, 4]), 3), _sequences(threads, 2)):
             k = json.dumps(seq)
             if k not in seen:
                 seen.add(k)
                 yield "history", dict(seq=seq)
     else:
-        for seq in _sequences([1, 4], 2):
+        for seq in _sequences(threads, 2):
             yield "history", dict(seq=seq)
 
 
